@@ -2,10 +2,10 @@ package an
 
 import (
 	"fmt"
-	"os"
 	"go/constant"
 	"go/token"
 	"go/types"
+	"os"
 	"sort"
 	"strings"
 
@@ -296,36 +296,36 @@ func c13Assert(w *World, r *Result) {
 // reviewed index sites: function -> reason (applies to the index expressions of
 // that function that are not discharged automatically).
 var reviewedIndex = map[string]string{
-	"context.currentScope":          "every caller lies below the block routine that pushes a scope before parsing statements (call-graph dominance)",
-	"Parser.evaluateVarDefinition":  "name list comes from the do-while name reader (≥ 1 element); type/value lists were length-checked against it",
-	"Parser.evaluateCompoundAssignment": "name list ≥ 1 (do-while reader); value list ≥ 1 (do-while reader) and checked to hold exactly one value",
-	"Parser.evaluateVarAssignment":  "value-type list was checked to have the length of the name list that is ranged over",
-	"Parser.parse":                  "hex digest of SHA-256 has 64 characters (> 7)",
-	"isPublic":                      "guarded by len(name) > 0",
-	"Parser.evaluateFunctionDefinition$2": "guarded by length > 0 / index from range over a list of checked equal length",
-	"scopesToString":               "destination made with the length of the ranged source",
-	"converter.varAssignmentString": "second index reads a value that is the non-empty input possibly extended by one character",
-	"converter.Dump":               "down-counting loop from len-1 to 0",
-	"converter.addLine":            "index = len(functionsCode)-1; an entry is appended whenever the current function differs from the previous one, which holds for the first line of every function (names are unique and non-empty)",
-	"converter.AppCall":            "in-place rewrite of the ranged argument list",
-	"converter.FuncCall":           "in-place rewrite of the ranged argument list",
-	"Parser.evaluateArguments":      "index = len(args)-1 after an append; bounded by the parameter count check directly above",
-	"Parser.evaluateLen$1":          "builtin reader guarantees minArgs = 1 arguments",
-	"Parser.evaluatePanic$1":        "builtin reader guarantees minArgs = 1 arguments",
-	"Parser.evaluateCopy$1":         "explicit length checks above; minArgs = 2",
-	"Parser.evaluateItoa$1":         "builtin reader guarantees minArgs = 1 arguments",
-	"Parser.evaluateExists$1":       "builtin reader guarantees minArgs = 1 arguments",
-	"Parser.evaluateRead$1":         "builtin reader guarantees minArgs = 1 arguments",
-	"Parser.evaluateWrite$1":        "builtin reader guarantees minArgs = 2; third argument guarded by len > 2",
-	"Parser.evaluateInput$1":        "guarded by len(expressions) > 0",
-	"Tokenize":                      "sub-match indices follow from the capture groups of the constant regex; split of a matched comment has ≥ 1 element; source[i:] with i < len(source) by the loop condition",
-	"transpiler.evaluateVarDefinition":  "values and variables have equal length (parser slot rule R-C06: arity checked at construction)",
-	"transpiler.evaluateVarAssignment":  "values and variables have equal length (parser slot rule R-C06: arity checked at construction)",
+	"context.currentScope":                           "every caller lies below the block routine that pushes a scope before parsing statements (call-graph dominance)",
+	"Parser.evaluateVarDefinition":                   "name list comes from the do-while name reader (≥ 1 element); type/value lists were length-checked against it",
+	"Parser.evaluateCompoundAssignment":              "name list ≥ 1 (do-while reader); value list ≥ 1 (do-while reader) and checked to hold exactly one value",
+	"Parser.evaluateVarAssignment":                   "value-type list was checked to have the length of the name list that is ranged over",
+	"Parser.parse":                                   "hex digest of SHA-256 has 64 characters (> 7)",
+	"isPublic":                                       "guarded by len(name) > 0",
+	"Parser.evaluateFunctionDefinition$2":            "guarded by length > 0 / index from range over a list of checked equal length",
+	"scopesToString":                                 "destination made with the length of the ranged source",
+	"converter.varAssignmentString":                  "second index reads a value that is the non-empty input possibly extended by one character",
+	"converter.Dump":                                 "down-counting loop from len-1 to 0",
+	"converter.addLine":                              "index = len(functionsCode)-1; an entry is appended whenever the current function differs from the previous one, which holds for the first line of every function (names are unique and non-empty)",
+	"converter.AppCall":                              "in-place rewrite of the ranged argument list",
+	"converter.FuncCall":                             "in-place rewrite of the ranged argument list",
+	"Parser.evaluateArguments":                       "index = len(args)-1 after an append; bounded by the parameter count check directly above",
+	"Parser.evaluateLen$1":                           "builtin reader guarantees minArgs = 1 arguments",
+	"Parser.evaluatePanic$1":                         "builtin reader guarantees minArgs = 1 arguments",
+	"Parser.evaluateCopy$1":                          "explicit length checks above; minArgs = 2",
+	"Parser.evaluateItoa$1":                          "builtin reader guarantees minArgs = 1 arguments",
+	"Parser.evaluateExists$1":                        "builtin reader guarantees minArgs = 1 arguments",
+	"Parser.evaluateRead$1":                          "builtin reader guarantees minArgs = 1 arguments",
+	"Parser.evaluateWrite$1":                         "builtin reader guarantees minArgs = 2; third argument guarded by len > 2",
+	"Parser.evaluateInput$1":                         "guarded by len(expressions) > 0",
+	"Tokenize":                                       "sub-match indices follow from the capture groups of the constant regex; split of a matched comment has ≥ 1 element; source[i:] with i < len(source) by the loop condition",
+	"transpiler.evaluateVarDefinition":               "values and variables have equal length (parser slot rule R-C06: arity checked at construction)",
+	"transpiler.evaluateVarAssignment":               "values and variables have equal length (parser slot rule R-C06: arity checked at construction)",
 	"transpiler.evaluateVarDefinitionCallAssignment": "guarded by the explicit length comparison above",
 	"transpiler.evaluateVarAssignmentCallAssignment": "guarded by the explicit length comparison above",
-	"transpiler.evaluateIf":         "condition list has one entry per else-if branch (filled by the loop over the same accessor)",
-	"main":                          "extension length never exceeds the base name's length (Ext is a suffix of the path)",
-	"parseOptions":                  "i+1 ≤ len(args)-1 by the loop condition",
+	"transpiler.evaluateIf":                          "condition list has one entry per else-if branch (filled by the loop over the same accessor)",
+	"main":                                           "extension length never exceeds the base name's length (Ext is a suffix of the path)",
+	"parseOptions":                                   "i+1 ≤ len(args)-1 by the loop condition",
 }
 
 // converter stack accessors: index the top of a stack that the bracket protocol
@@ -1455,16 +1455,16 @@ func c13Progress(w *World, r *Result) {
 
 // loops whose progress argument is path-sensitive (same token peeked twice, first-iteration flags)
 var reviewedLoops = map[string]string{
-	"Parser.evaluateBlockContent": "an iteration that consumes nothing has just seen a termination token (peeked twice without an eat in between) and leaves at the next header test",
-	"Parser.evaluateIf":           "the first iteration demands and eats 'if'; every later iteration eats 'else' or leaves",
-	"Parser.evaluateImports":      "newline skipping eats per iteration; the import loop parses an import (≥ 1 token) per iteration",
+	"Parser.evaluateBlockContent":       "an iteration that consumes nothing has just seen a termination token (peeked twice without an eat in between) and leaves at the next header test",
+	"Parser.evaluateIf":                 "the first iteration demands and eats 'if'; every later iteration eats 'else' or leaves",
+	"Parser.evaluateImports":            "newline skipping eats per iteration; the import loop parses an import (≥ 1 token) per iteration",
 	"Parser.evaluateFunctionDefinition": "return-type list: every iteration eats a token in the multiple form and leaves otherwise",
-	"Parser.evaluateParams":       "every iteration eats the parameter name or leaves at ')'",
-	"Parser.findAllowed":          "counting loop over the token slice",
-	"Parser.findBefore":           "counting loop over the token slice",
-	"Parser.skipNewlines":         "eats one token per iteration",
-	"Parser.getUsedFuncs":         "range loops over finite lists",
-	"context.findScope":           "down-counting loop",
+	"Parser.evaluateParams":             "every iteration eats the parameter name or leaves at ')'",
+	"Parser.findAllowed":                "counting loop over the token slice",
+	"Parser.findBefore":                 "counting loop over the token slice",
+	"Parser.skipNewlines":               "eats one token per iteration",
+	"Parser.getUsedFuncs":               "range loops over finite lists",
+	"context.findScope":                 "down-counting loop",
 }
 
 func firstPosOf(b *ssa.BasicBlock) token.Pos {
